@@ -724,8 +724,24 @@ func RunC19(t *testing.T, tape *Tape) *Outcome {
 			twoSessions = false
 		}
 	}
+	// now and then the client pauses the running program (Interrupt) some time
+	// after a resume request, or ends the session with Terminate at its k-th stop
+	interruptEvery := 0
+	if tape.Choose(4) == 3 {
+		interruptEvery = 1 + tape.Choose(3)
+	}
+	termAt := 0
+	if prog != nil && len(prog.Tail) == 0 && !twoSessions && tape.Choose(8) == 7 {
+		termAt = 1 + tape.Choose(8)
+	}
 	if switchAt > 0 {
 		pname += fmt.Sprintf(" [replace set at break %d: lines %d funcs %v]", switchAt, len(lineBP2), funcBP2)
+	}
+	if interruptEvery > 0 {
+		pname += fmt.Sprintf(" [Interrupt after every %d resume requests]", interruptEvery)
+	}
+	if termAt > 0 {
+		pname += fmt.Sprintf(" [Terminate at stop %d]", termAt)
 	}
 	o.Desc = fmt.Sprintf("%s bp=%s(lines %d, funcs %v, late=%v) policy=%s", pname, [...]string{"none", "every-line", "subset", "funcs", "mix"}[bpMode], len(lineBP), funcBP, lateBP,
 		[...]string{"continue", "step-into", "step-over", "step-out-mix", "random-mix"}[policy])
@@ -780,6 +796,7 @@ func RunC19(t *testing.T, tape *Tape) *Outcome {
 	var wait2Res reflect.Value
 	var wait2Err error
 	waited2, started2, overlap2 := false, false, false
+	stopsSeen, interrupts, terminated := 0, 0, false
 	out2Start, ticks2Start := 0, 0
 
 	res := Simulate(t, tape, cfg, func(r *Run) {
@@ -880,6 +897,19 @@ func RunC19(t *testing.T, tape *Tape) *Outcome {
 			gid := 0 // the goroutine to resume: the one that reported the last stop
 		session:
 			for {
+				if termAt > 0 && stopsSeen >= termAt {
+					// end the session while the program is stopped
+					terminated = true
+					dbg.Terminate()
+					for {
+						if ev := <-evch; ev.reason == interp.DebugTerminate {
+							terminateSeenBeforeWait = true
+							waitRes, waitErr = dbg.Wait()
+							waited = true
+							break session
+						}
+					}
+				}
 				var reason interp.DebugEventReason
 				cont := false
 				switch {
@@ -929,6 +959,15 @@ func RunC19(t *testing.T, tape *Tape) *Outcome {
 					setupFailed, setupErr = true, "resume request failed: "+err.Error()
 					return
 				}
+				if interruptEvery > 0 && requests%interruptEvery == 0 {
+					// let the program run for a while, then ask it to pause
+					for n := tape.Choose(6); n > 0; n-- {
+						HostYield()
+					}
+					if dbg.Interrupt(gid, interp.DebugPause) {
+						interrupts++
+					}
+				}
 				// wait for the next stop of goroutine 0 or the end
 				stop := false
 				for !stop {
@@ -943,6 +982,7 @@ func RunC19(t *testing.T, tape *Tape) *Outcome {
 						// informational
 					default:
 						stop = true
+						stopsSeen++
 						gid = ev.g
 						if ev.reason == interp.DebugEntry && lateBP && validLines == nil {
 							install()
@@ -1093,6 +1133,55 @@ func RunC19(t *testing.T, tape *Tape) *Outcome {
 	}
 	if !waited {
 		o.addV("C19", "terminate", "no-terminate-event prog="+kind, "%s: the session never delivered a terminate event", o.Desc)
+		return o
+	}
+	o.FaultFired["interrupt-requests"] += interrupts
+	if terminated {
+		// the session was ended by the client: what the program did up to then is a
+		// prefix of what plain execution does, and the session ends with exactly
+		// one terminate event
+		o.FaultFired["session-ended-by-Terminate"]++
+		// (the OUTPUT is not compared: Terminate cancels the evaluation, and host
+		// functions deferred by the cancelled frames still run while interpreted ones
+		// do not — the C09 finding "deferred-host-call"; the marker trace is exact)
+		var ticks, got, want []int
+		for _, e := range sink.Events() {
+			if e.Kind == host.KTick {
+				ticks = append(ticks, e.Tag)
+			}
+		}
+		if len(ticks) > len(ref.ticks) || fmt.Sprint(ticks) != fmt.Sprint(ref.ticks[:len(ticks)]) {
+			o.addV("C19", "trace", "marker-trace-differs bp="+bpk+" after=Terminate", "%s: statements executed under the debugger %v are not a prefix of the plain trace %v", o.Desc, clipInts(ticks), clipInts(ref.ticks))
+		} else if prog != nil && ticksAtSwitch < 0 {
+			fl := map[int]bool{}
+			for _, l := range validFuncs {
+				fl[l] = true
+			}
+			for _, l := range ticks {
+				if validLines[l] || fl[l] {
+					want = append(want, l)
+				}
+			}
+			for _, e := range events {
+				if e.reason == interp.DebugBreak {
+					got = append(got, e.line)
+				}
+			}
+			// the marker of the statement at which the program was stopped last may
+			// or may not have executed
+			if !(fmt.Sprint(got) == fmt.Sprint(want) || (len(got) == len(want)+1 && fmt.Sprint(got[:len(want)]) == fmt.Sprint(want))) {
+				o.addV("C19", "breakpoints", "breakpoint-report-mismatch bp="+bpk+" after=Terminate", "%s: break events at lines %v, executed breakpoint lines %v", o.Desc, clipInts(got), clipInts(want))
+			}
+		}
+		nterm := 0
+		for _, e := range events {
+			if e.reason == interp.DebugTerminate {
+				nterm++
+			}
+		}
+		if nterm != 1 || events[len(events)-1].reason != interp.DebugTerminate {
+			o.addV("C19", "terminate", "terminate-event-count prog="+kind+" after=Terminate", "%s: %d terminate events, last event %v", o.Desc, nterm, events[len(events)-1].reason)
+		}
 		return o
 	}
 	// (1) output, result, error
